@@ -121,8 +121,12 @@ def gen_mibdump(rng, tier):
     u = rng.random()
     if u < 0.04:
         scn['usage'] = rng.choice(['no-names', 'bad-option', 'bad-format', 'bad-optlevel'])
-    elif u < 0.25:
+    elif u < 0.2:
         scn['rate'] = {'p': rng.choice([0.02, 0.1]), 'seed': rng.randrange(1 << 30), 'sites': ['mkstemp', 'os.write', 'os.close', 'os.rename', 'os.makedirs'], 'actions': ['errno']}
+    elif u < 0.35:
+        # one store operation fails: the k-th temp file / write / rename of the run
+        scn['faults'] = [{'op': 0, 'site': rng.choice(['mkstemp', 'os.write', 'os.rename', 'os.close']), 'nth': rng.choice([0, 0, 1, 2, 3]),
+                          'action': 'errno', 'arg': rng.choice(['ENOSPC', 'EIO', 'EACCES'])}]
     return scn
 
 
@@ -189,7 +193,7 @@ def run_mibdump(scn):
         elif usage == 'bad-optlevel':
             argv.append('--python-optimization-level=fast')
         argv += names
-        w = core.World(root=root, rate=scn.get('rate'), listing_seed=scn.get('listing_seed'), clock=core.EPOCH0)
+        w = core.World(root=root, rate=scn.get('rate'), faults=scn.get('faults', ()), listing_seed=scn.get('listing_seed'), clock=core.EPOCH0)
         core.patch_pysmi()
         cap = _Capture()
         with w:
@@ -483,6 +487,10 @@ def shrink(scn):
     if scn.get('rate'):
         s = copy.deepcopy(scn)
         s.pop('rate')
+        yield s
+    if scn.get('faults'):
+        s = copy.deepcopy(scn)
+        s.pop('faults')
         yield s
     if scn['tool'] == 'mibdump':
         for i in range(len(scn['flags'])):
